@@ -327,6 +327,10 @@ class _ListDict_(object):
                 self.max_weight_count -= 1
                 if self.max_weight_count == 0 and len(self)>0:
                     self._update_max_weight()
+            if len(self) == 0 or self.max_weight == 0: 
+                #nothing with positive weight is left: the total is exactly 0.  Without this the 
+                #rounding residue of the running total keeps the Gillespie clock alive.
+                self._total_weight = 0
 
     def choose_random(self):
         # r'''chooses a random node.  If there is a weight, it will use rejection
